@@ -174,7 +174,7 @@ def it_iterator(ctx, rep):
     # IT3 next (exhaustive)
     nx = A.method("StateIterator", "next", "Iterator")
     rep.note_fn(nx.path)
-    pe = ctx.paths(nx)
+    pe = ctx.paths(nx, inline=True)
     rep.stats["paths"] += len(pe.paths)
     rep.check(not pe.truncated, "IT3", "paths-complete", ctx.where(nx), "%d paths of next enumerated" % len(pe.paths), "truncated")
     seen_some = 0
@@ -209,7 +209,7 @@ def it_iterator(ctx, rep):
     # IT4 drop
     dr = A.method("StateIterator", "drop", "Drop")
     rep.note_fn(dr.path)
-    for p in ctx.paths(dr).paths:
+    for p in ctx.paths(dr, inline=True).paths:
         sub = _dec(p, lambda k: k[0] == "discr" and strip_wrap(k[1]) == ("field", ("param", 1), "subscription"))
         uns = [e for e in p.calls() if e.site is not None and A.event(e.site) == "UNSUBSCRIBE"]
         if sub is None:
